@@ -259,6 +259,7 @@ def check(run):
     binary = vlib.build_impl()
     vlib.regen_facts(binary)
     run.check_proofs('C01', THEOREMS, extra_targets=['theories/Extract/Ex_sync.vo'])
+    run.check_translation()      # needs_delete / needs_copy / process_*_entry as regenerated from the source text = the model
     jbin = vlib.build_judge('sync')
     rng = run.rng
     quick = run.tier == 'quick'
